@@ -218,9 +218,12 @@ pub fn record_alphabet(section: &str) -> Vec<String> {
             "{t},-100",
             "{t},400",
             "{t},-77.7,4,1,1,70,0,0",
+            "{t},-2500,4,1,0,100,0,0",
+            "{t},500,4,1,0,100, 1, 8 ",
         ],
         "HitObjects" => &[
             "10,20,{t},1,0",
+            "10,20,{t}, 1 , 2 ",
             "10,20,{t},5,14,2:3:1:50:",
             "64,64,{t},21,2,0:0:0:0:file.wav",
             "100,100,{t},2,0,B|200:100|200:200,1,150",
